@@ -6,7 +6,7 @@ use identity_core::convert::{FromJson, ToJson};
 use identity_iota_core::{Error as IErr, IotaDID, IotaDocument, StateMetadataDocument};
 use serde_json::{json, Map, Value};
 
-const DIDS: [(i64, &str); 11] = [
+const DIDS: [(i64, &str); 13] = [
   (0, "did:0:0"),
   (1, "did:iota:0x1111111111111111111111111111111111111111111111111111111111111111"),
   (2, "did:iota:0x2222222222222222222222222222222222222222222222222222222222222222"),
@@ -18,6 +18,9 @@ const DIDS: [(i64, &str); 11] = [
   (7, "did:iota:rms:0x2222222222222222222222222222222222222222222222222222222222222222"),
   // a NON-normal spelling of DID 1 (explicit default network): as a CoreDID inside the document it is a different, foreign DID
   (8, "did:iota:iota:0x1111111111111111111111111111111111111111111111111111111111111111"),
+  // foreign DIDs with an ALL-ZERO tag (a document that was not published yet): not the placeholder
+  (9, "did:iota:0x0000000000000000000000000000000000000000000000000000000000000000"),
+  (12, "did:iota:smr:0x0000000000000000000000000000000000000000000000000000000000000000"),
   (10, "did:example:abc"),
   (11, "did:web:example.com"),
 ];
@@ -47,6 +50,7 @@ fn props_v(p: i64) -> Map<String, Value> {
     1 => json!({"customA": did_s(1)}),
     2 => json!({"customB": {"ref": did_s(3), "n": 2}, "customC": [did_s(1), did_s(2)]}),
     3 => json!({"customA": did_s(2)}),
+    4 => json!({"customU": "gr\u{fc}\u{df}e \u{20ac} \u{1f600}"}),     // non-ASCII text: the frame's length prefix counts BYTES
     p if p >= 1000 => json!({"pad": "x".repeat((p - 1000) as usize)}),
     _ => json!({"customZ": p}),
   };
@@ -55,7 +59,7 @@ fn props_v(p: i64) -> Map<String, Value> {
 fn props_n(m: &Map<String, Value>) -> Option<i64> {
   if let Some(Value::String(s)) = m.get("pad") { if m.len() == 1 && s.bytes().all(|b| b == b'x') { return Some(1000 + s.len() as i64); } }
   if let Some(Value::Number(n)) = m.get("customZ") { if m.len() == 1 { return n.as_i64(); } }
-  (0..4).find(|p| props_v(*p) == *m)
+  (0..5).find(|p| props_v(*p) == *m)
 }
 fn mjson(m: &M) -> Value { json!({"id": ustr(m.u), "controller": did_s(m.c), "type": "Ed25519VerificationKey2018", "publicKeyMultibase": format!("zDATA{}", m.x)}) }
 fn mparse(v: &Value) -> Option<M> {
@@ -226,7 +230,7 @@ fn case2(data: &[u8]) -> Vec<i64> {
 }
 
 fn gen_doc(rng: &mut Rng, self_did: i64) -> D {
-  let dids = [self_did, self_did, 2, 5, 6, 7, 8, 10, 11];
+  let dids = [self_did, self_did, 2, 5, 6, 7, 8, 9, 12, 10, 11];
   let mut d = D { id: self_did, ..Default::default() };
   d.ctrl = match rng.below(5) { 0 => vec![], 1 => vec![self_did], 2 => vec![self_did, 2], 3 => vec![2, 5], _ => vec![4, self_did, 5] };
   let mut u = |rng: &mut Rng| U { d: *rng.pick(&dids), r: if rng.chance(1, 8) { rng.range(1, 2) } else { 0 }, f: rng.range(0, 3) };
@@ -234,7 +238,7 @@ fn gen_doc(rng: &mut Rng, self_did: i64) -> D {
   for k in 0..5 { for _ in 0..rng.below(3) { let uu = u(rng); d.rels[k].push(if rng.chance(1, 2) { E::Embed(M { u: U { f: uu.f + 4, ..uu }, c: *rng.pick(&dids), x: rng.range(100, 199) }) } else if !d.vm.is_empty() && rng.chance(2, 3) { E::Refer(rng.pick(&d.vm).u) } else { E::Refer(uu) }); } }
   for _ in 0..rng.below(3) { let uu = u(rng); d.svc.push((U { f: uu.f + 10, ..uu }, rng.range(0, 9))); }
   d.aka = match rng.below(4) { 0 => vec![], 1 => vec![100], 2 => vec![self_did, 101], _ => vec![2, self_did] };
-  d.props = rng.range(0, 3);
+  d.props = rng.range(0, 4);
   d
 }
 fn gen_meta(rng: &mut Rng) -> Meta { Meta { c: rng.range(-1, 50), u: rng.range(-1, 50), d: rng.range(-1, 1), g: rng.range(-1, 3), s: rng.range(-1, 3), p: rng.range(0, 2) } }
@@ -256,6 +260,8 @@ pub fn gen(rng: &mut Rng, thorough: bool, sink: &mut Sink) {
   shapes.push(D { id: 1, rels: [vec![], vec![E::Embed(M { u: su(1, 5), c: 1, x: 4 }), E::Embed(M { u: su(2, 5), c: 2, x: 5 })], vec![], vec![], vec![]], ..Default::default() });
   shapes.push(D { id: 1, rels: [vec![], vec![], vec![], vec![], vec![E::Refer(su(1, 9)), E::Refer(su(2, 9))]], ..Default::default() });
   shapes.push(D { id: 1, ctrl: vec![8], vm: vec![M { u: su(8, 1), c: 8, x: 1 }, M { u: su(1, 1), c: 1, x: 2 }], svc: vec![(su(8, 11), 1)], ..Default::default() });
+  shapes.push(D { id: 1, ctrl: vec![9, 1], vm: vec![M { u: su(9, 1), c: 12, x: 1 }, M { u: su(1, 2), c: 9, x: 2 }], svc: vec![(su(12, 11), 1)], props: 4, ..Default::default() });
+  shapes.push(D { id: 3, props: 4, aka: vec![3], ..Default::default() });
   for d in &shapes { for tgt in [1i64, 2, 3, 4, 5] { if let Some(c) = case1(tgt, d, &m0) { sink.case(c, "shape"); } } }
   let n = if thorough { 4000 } else { 500 };
   for i in 0..n {
